@@ -206,9 +206,19 @@ def gen_empty_segments(ops=('delete',)):
 # ---------------------------------------------------------------------------
 # keys given as T / Spec expressions (evaluated against the target, like in a read), also as the LAST segment
 
+import collections as _c
+Pt = _c.namedtuple('Pt', 'x y')
+
+
+class FrozenKey(frozenset):
+    def __new__(cls, a, b):           # like a namedtuple: cannot be rebuilt from ONE iterable
+        return super().__new__(cls, (a, b))
+
+
 def dyn_target():
     return {'key': 'x', 'idx': 1, 'first': 'a', 'a': {'x': 5, 'y': 6}, 'l': [10, 20, 30], 'o': MR.Obj(x=1),
-            'm': {('x', 2): {'z': 7, 'w': 8}, ('y', 2): {'z': 9}}, 'rows': [{'x': 1, 'y': 2}, {'x': 3, 'y': 4}, {'x': 5}], 'n': 0, 'ykey': 'y'}
+            'm': {('x', 2): {'z': 7, 'w': 8}, ('y', 2): {'z': 9}}, 'rows': [{'x': 1, 'y': 2}, {'x': 3, 'y': 4}, {'x': 5}], 'n': 0, 'ykey': 'y',
+            'nt': {Pt(1, 2): 'v', Pt(3, 4): 'w', FrozenKey(1, 2): 'fk'}}
 
 
 DYN_PATHS = {
@@ -223,6 +233,10 @@ DYN_PATHS = {
     # a Spec as a plain Path part: evaluated when the path is read, so it has to be evaluated when the path is written
     'last-Path-part-is-a-Spec': (lambda: Path('a', Spec('key')), lambda t: t['a'], lambda t: t['key']),
     'middle-Path-part-is-a-Spec': (lambda: Path(Spec('first'), 'y'), lambda t: t[t['first']], lambda t: 'y'),
+    # literal keys that are instances of tuple / frozenset SUBCLASSES: passed as they are (they cannot be rebuilt item by item)
+    'namedtuple-key-last': (lambda: T['nt'][Pt(1, 2)], lambda t: t['nt'], lambda t: Pt(1, 2)),
+    'frozenset-subclass-key-last': (lambda: T['nt'][FrozenKey(1, 2)], lambda t: t['nt'], lambda t: FrozenKey(1, 2)),
+    'namedtuple-key-in-Path': (lambda: Path('nt', Pt(3, 4)), lambda t: t['nt'], lambda t: Pt(3, 4)),
     'last-key-missing-name': (lambda: T['a'][T['nokey']], None, None),
     # a spec INSIDE a container key (a tuple key whose first member is fetched from the target), as middle and as last segment
     'middle-tuple-key-holding-T': (lambda: T['m'][(T['key'], 2)]['z'], lambda t: t['m'][(t['key'], 2)], lambda t: 'z'),
